@@ -5,6 +5,7 @@
 package ua
 
 import (
+	"bytes"
 	"encoding/base64"
 	"encoding/json"
 	"encoding/xml"
@@ -313,7 +314,9 @@ func (n *NodeID) String() string {
 		return fmt.Sprintf("ns=%d;i=%d", n.ns, n.nid)
 
 	case NodeIDTypeString:
-		if n.ns == 0 {
+		// the short form is ambiguous when the identifier contains the
+		// separator: ParseNodeID would split "s=a;b" at the ';'.
+		if n.ns == 0 && !bytes.Contains(n.bid, []byte(";")) {
 			return fmt.Sprintf("s=%s", n.StringID())
 		}
 		return fmt.Sprintf("ns=%d;s=%s", n.ns, n.StringID())
